@@ -54,7 +54,7 @@ def native_lemma(m, quick=True):
             if r and bad is None: bad = dict(family='compat-pair', a=a, b=b, observed=r)
     out.append(('_compatible_tensor_params / _same_tensor_params_except_id (real functions, opaque parameter objects)', 'all ordered pairs of entries: transformation words of length 1..2 over the 5 transformations x parameters in {None, P1, P2}', n, bad))
     E1 = N.entries(1, 3); lists = [None] + [list(c) for L in (1, 2) for c in itertools.product(E1, repeat=L)]; bad = None; n = 0
-    prods = [(None, None), (None, E1[0]), (E1[0], E1[0]), (E1[10], E1[11])] if quick else [(a, b) for a in [None] + E1 for b in [None] + E1]
+    prods = [(None, None), (None, E1[0]), (E1[0], E1[0]), (E1[10], E1[11])] if quick else [(a, b) for a in (None, E1[0], E1[10], E1[11]) for b in (None, E1[0], E1[10], E1[11])]
     step = 3 if quick else 1
     for i, c1 in enumerate(lists):
         for j, c2 in enumerate(lists):
@@ -62,7 +62,7 @@ def native_lemma(m, quick=True):
             for p1, p2 in prods:
                 n += 1; case = dict(t1=dict(producer=p1, consumers=c1), t2=dict(producer=p2, consumers=c2)); r = N.compat_tensors_case(m, case)
                 if r and bad is None: bad = dict(family='compat-tensors', observed=r, **case)
-    out.append(('_compatible_tensor_transformation_params (real function)', f'consumer lists None / length 1..2 over 15 entries (5 transformations x {{None, P1, P2}}), {"every 3rd pair of lists, 4" if quick else "all pairs of lists, all 256"} producer combinations', n, bad))
+    out.append(('_compatible_tensor_transformation_params (real function)', f'consumer lists None / length 1..2 over 15 entries (5 transformations x {{None, P1, P2}}), {"every 3rd pair of lists, 4" if quick else "all pairs of lists, 16"} producer combinations', n, bad))
     bad = None; n = 0
     for shape in ('three-tensors', 'one-tensor-three-consumers'):
         for es in itertools.product(E1, repeat=3):
@@ -73,6 +73,28 @@ def native_lemma(m, quick=True):
             if r and bad is None: bad = dict(family='sharing', observed=r, **case)
     out.append(('ParamsGenerator._check_buffer_sharing (real method on a stand-in self)', 'one buffer with three uses: three single-consumer tensors / one tensor with three consumer entries, entries over 5 transformations x {None, P1, P2}', n, bad))
     return out
+
+def native_b2t(m):
+    bad = None; n = 0
+    for case in N.b2t_oracle_cases():
+        n += 1; r = N.b2t_oracle_case(m, case)
+        if r and bad is None: bad = dict(family='b2t-oracle', observed=r, **case)
+    return n, bad
+
+_fb = {}
+def fallback_for(key):
+    """bounded native search used when the solver refutes (or cannot follow) a pyvc obligation: a natively failing input of the same function, if one exists in the small scope"""
+    def fb(label):
+        if key not in _fb:
+            m = N.load(); bad = None
+            if key in ('compat', 'same'): bad = native_lemma(m)[0][3]
+            elif key == 'pair': bad = native_lemma(m)[1][3]
+            elif key == 'share': bad = native_lemma(m)[2][3]
+            elif key == 'valid': bad = native_valid(m, 4)[1]
+            elif key in ('parse', 'b2t'): bad = native_b2t(m)[1]
+            _fb[key] = dict(confirmed=True, inputs=bad, observed=bad['observed']) if bad else dict(confirmed=False)
+        return _fb[key]
+    return fb
 
 def native_valid(m, max_len=5):
     bad = None; n = 0
@@ -161,7 +183,7 @@ def run(rep):
     specs = {key: (rel, qual, mk) for key, rel, qual, mk in PYVC}
     # ---- (1)-(3) pyvc
     for key, rel, qual, mk in PYVC:
-        EN.verify(rep, 'C15', core.Fn(rel, qual), mk(), timeout=T)
+        EN.verify(rep, 'C15', core.Fn(rel, qual), mk(), timeout=T, fallback=fallback_for(key))
     lap('pyvc')
     property_clause(rep, T)
     lap('property-clause')
@@ -189,10 +211,13 @@ def run(rep):
     for function, scope, cases, bad in native_lemma(m, quick=not thorough):
         rep.add_bounded(function, scope, cases, 1 if bad else 0)
         if bad: rep.add(core.Ob(f'C15/bounded.lemma/{bad["family"]}', None, 'bounded-native', core.REFUTED, 0.0, detail=str(bad['observed']), clause='conclusion of the compatibility lemma on the real function', replay=dict(confirmed=True, inputs=bad, observed=bad['observed'])))
+    n, bad = native_b2t(m)
+    rep.add_bounded('parse_op_tensors / buffer_to_tensors (real functions on real schema objects) against the specification written in Python', '1-2 subgraphs x 1-2 operators, 2 tensors on buffers from {0,1,2}, operand lists with -1, repeated operands and outputs; exact keys (order of first occurrence), lists by object identity', n, 1 if bad else 0)
+    if bad: rep.add(core.Ob('C15/bounded.b2t/oracle', None, 'bounded-native', core.REFUTED, 0.0, detail=str(bad['observed']), clause='map == specification', replay=dict(confirmed=True, inputs=bad, observed=bad['observed'])))
     n, bad = native_valid(m, 6 if thorough else 5)
     rep.add_bounded('_check_tensor_transformation_instructions_valid (real method)', f'all transformation words of length 0..{6 if thorough else 5} over the 5 transformations: raises ValueError exactly on a conflict', n, 1 if bad else 0)
     if bad: rep.add(core.Ob('C15/bounded.valid/word', None, 'bounded-native', core.REFUTED, 0.0, detail=str(bad), clause='accept/reject table of the instruction check', replay=dict(confirmed=True, inputs=bad, observed=bad['observed'])))
-    lap('bounded-native'); e2e(rep, thorough); lap('bounded-e2e')
+    order_dependence_observation(rep, m); lap('bounded-native'); e2e(rep, thorough); lap('bounded-e2e')
     # ---- canaries
     for name, key, a, b, expect in PY_CANARIES:
         rel, qual, mk = specs[key]; src = core.read_source(rel)
@@ -266,10 +291,14 @@ def e2e(rep, thorough):
         r = N.e2e_case(c); tally[r[0]] = tally.get(r[0], 0) + 1
         if r[0] == 'fail': fails.append((c, r[1]))
     rep.cover('end to end: some tied-constant requests are rejected and some are quantized', tally.get('raise', 0) > 0 and tally.get('ok', 0) > 0)
+    M = N._E2E['m']; kf = next((k for k in rep.active_findings() if k['id'] == KF), None); kf_live = kf is not None and witness_fails(kf)
+    excluded = [(c, f) for c, f in fails if kf_live and N.unlisted_sharers(M, N.build_model(M, c))]       # exactly the cases of the class: a tensor on a data-bearing buffer that is no operand
+    counted = [(c, f) for c, f in fails if not any(c is c2 for c2, _ in excluded)]
     rep.add_bounded('Quantizer.quantize end to end on models with tied constants (real public API; byte-level check of every buffer of the returned model)',
                     'FULLY_CONNECTED weight / FULLY_CONNECTED bias / ADD constant operand shared by k sharers: k tensors on one buffer in one subgraph, one tensor with k consumers, k subgraphs (signatures) each with its own tensor on the buffer; '
                     'k = 2 (chain and parallel wiring) and k = 3 (weights, chain); every assignment of {none, srq8, drq8, wo8, srq16} ({none, srq8, srq16} for ADD) to the sharers; plus a tensor on the shared buffer that is NOT an operand '
-                    '(unused / extra graph output / output of a second signature) x 5 modes; 4x4 weights, one calibration sample set', len(cases), len(fails), note=str(tally))
+                    '(unused / extra graph output / output of a second signature) x 5 modes; 4x4 weights, one calibration sample set', len(cases), len(counted),
+                    note=str(tally) + (f'; {len(excluded)} failing cases belong to the class of known finding {KF} (a tensor on a data-bearing buffer that is not an operand) and are excluded' if excluded else ''))
     rep.extra['e2e_tally'] = tally
     seen = set()
     for c, f in fails:
@@ -279,9 +308,23 @@ def e2e(rep, thorough):
         o = core.Ob(f'C15/bounded.e2e/{c["topology"]}{"." + c["variant"] if c.get("variant") else ""}.{c["what"]}.{"-".join(c["modes"])}', rep.fn(core.Fn(TFU, 'buffer_to_tensors')) if c['topology'] == 'unlisted' else None, 'bounded-native', core.REFUTED, 0.0, detail=str(f),
                     clause='quantize() raises or every tensor referencing a data-bearing buffer of the returned model has a dtype / parameters agreeing with the stored bytes, decoded values within one step of the original constant',
                     replay=dict(confirmed=True, inputs=dict(family='e2e', **c), observed=f))
-        sharers = N.unlisted_sharers(N._E2E['m'], N.build_model(N._E2E['m'], c))
-        if sharers: known(rep, o, True, f'the model has tensors on a data-bearing buffer that are not operands of any operator: {sharers} (case skipped)')       # only cases of the class; the case itself is the witness
+        if any(c is c2 for c2, _ in excluded):
+            known(rep, o, True, f'the model has tensors on a data-bearing buffer that are not operands of any operator: {N.unlisted_sharers(M, N.build_model(M, c))} (case skipped under the exclusion)')
         rep.add(o)
+
+def order_dependence_observation(rep, m):
+    """design-time note re-derived: acceptance by _check_buffer_sharing depends on the ORDER of FLOAT-source consumer entries only (no clause of C15 is affected: both outcomes are allowed)"""
+    P = lambda cons: dict(buffers={'2': ['t', 't', 't']}, params=dict(t=dict(producer=None, consumers=cons)))
+    def outcome(cons):
+        self_ = N.FakeSelf(); t = N.FakeTensor(b't', 2); self_.buffer_to_tensors = {2: [t, t, t]}; self_.model_quant_results = {'t': N.tparams(m, dict(producer=None, consumers=cons), 't')}
+        try: m.pg.ParamsGenerator._check_buffer_sharing(self_); return 'accepted'
+        except RuntimeError: return 'RuntimeError'
+    NQ, AQ1, AQ2, QT1, QT2 = [[N.NO_QUANTIZE], 0], [[N.ADD_QUANTIZE], 1], [[N.ADD_QUANTIZE], 2], [[N.QUANTIZE_TENSOR], 1], [[N.QUANTIZE_TENSOR], 2]
+    rep.extra['observation_order_dependent_acceptance'] = dict(
+        what='_check_buffer_sharing compares every entry with the pivot consumers[0] only; with a NO_QUANTIZE pivot two ADD_QUANTIZE entries with different parameters are accepted, with an ADD_QUANTIZE pivot they are rejected. '
+             'Only FLOAT-source entries are concerned (the buffer keeps its float bytes either way); integer-source entries (QUANTIZE_TENSOR / ADD_DEQUANTIZE) against a NO_QUANTIZE pivot are rejected. Not a C15 violation.',
+        executed_on_the_real_method={'[NO_QUANTIZE, ADD_QUANTIZE(P1), ADD_QUANTIZE(P2)]': outcome([NQ, AQ1, AQ2]), '[ADD_QUANTIZE(P1), NO_QUANTIZE, ADD_QUANTIZE(P2)]': outcome([AQ1, NQ, AQ2]),
+                                     '[NO_QUANTIZE, QUANTIZE_TENSOR(P1), QUANTIZE_TENSOR(P2)]': outcome([NQ, QT1, QT2]), '[QUANTIZE_TENSOR(P1), QUANTIZE_TENSOR(P2)]': outcome([QT1, QT2]), '[QUANTIZE_TENSOR(P1), QUANTIZE_TENSOR(P1)]': outcome([QT1, QT1])})
 
 def native_canaries(rep, m):
     # the bounded end-to-end checker must notice a disabled guard: _check_buffer_sharing made a no-op in the REAL class (restored afterwards)
@@ -319,6 +362,7 @@ def replay(payload):
     elif fam == 'compat-tensors': r = N.compat_tensors_case(m, inp)
     elif fam == 'sharing': r = N.sharing_case(m, inp)
     elif fam == 'instr': r = N.instr_case(m, inp)
+    elif fam == 'b2t-oracle': r = N.b2t_oracle_case(m, inp)
     elif fam == 'unlisted-tensor':
         r = N.b2t_model_case(m, inp)
     else:
